@@ -382,6 +382,9 @@ def parts(tier):
                   rule="all sets of <= 3 (thorough 4) labelled intervals on the grid %s, threshold 0.3 (thorough also 0.8): sub-threshold intervals and "
                        "gaps at the start, in the middle and at the end of one tier at the same time x the same overrides and oracles" % (FINE,),
                   bounds={"grid": len(FINE)}, snippet=c01._snippet, chunk=8),
+        InputPart("labels-unicode-forms", c01.layer_unicode_forms, check,
+                  rule="the %d non-NFC / case-folding-sensitive / canonically equivalent strings of C01 as labels and tier names: written code point for "
+                       "code point in all four formats" % len(c01.UNICODE_FORMS), bounds={}, snippet=c01._snippet, chunk=2),
         InputPart("keywords", layer_keywords_everywhere, check,
                   rule="the formats' own keywords in every label and name position, and in all positions at once: the WRITER must "
                        "stay well-formed for the independent reader (the known reader findings of C01/C03 do not apply here)",
